@@ -246,6 +246,10 @@ func c08gen(b core.Batch, i int, mode string, w *c08world) (c08case, rig.Req) {
 	if pick(15) {
 		c.ReqHeader = append(c.ReqHeader, [2]string{"TE", "trailers"})
 	}
+	if pick(30) {
+		// end-to-end fields whose names merely begin like hop-by-hop ones
+		c.ReqHeader = append(c.ReqHeader, [2]string{"Proxy-Trace-Id", "trace-" + c.ID}, [2]string{"Upgrade-Insecure-Requests", "1"}, [2]string{"Connection-Id", "c-7"}, [2]string{"Keep-Alive-Hint", "yes"}, [2]string{"Te-Extension", "x"})
+	}
 	var body []byte
 	if c.Method == "POST" || c.Method == "PUT" || c.Method == "PATCH" || (c.Method == "DELETE" && pick(30)) {
 		switch rng.IntN(4) {
@@ -293,6 +297,9 @@ func c08gen(b core.Batch, i int, mode string, w *c08world) (c08case, rig.Req) {
 	}
 	if pick(15) {
 		s.Header = append(s.Header, [2]string{"Proxy-Authenticate", "Basic realm=x"})
+	}
+	if pick(30) {
+		s.Header = append(s.Header, [2]string{"Proxy-Status", "upstream-cdn; received-status=200"}, [2]string{"Proxy-Trace-Id", "resp-trace"}, [2]string{"Upgrade-Hint", "none"}, [2]string{"Trailer-Id", "t-1"}, [2]string{"Transfer-Encoding-Hint", "identity"}, [2]string{"Connection-Id", "c-9"})
 	}
 	if pick(30) {
 		// the origin sits behind another intermediary that has already written these fields: its values are
@@ -702,7 +709,7 @@ func init() {
 	core.Register(&core.Monitor{
 		ID:    "C08",
 		Level: "exploration",
-		Rule: "seeded generation of exchanges: method in {GET,HEAD,POST,PUT,PATCH,DELETE,OPTIONS} x 15 request-target classes (pct-encoded slash/pipe/space, semicolon, empty query, dot-segments, double slash, trailing slash, ...) x request header options (multi-valued, odd casing, Cookie, Authorization, Connection-nominated, Proxy-*, TE) x request bodies (none/sized/chunked/70k-1MiB) " +
+		Rule: "seeded generation of exchanges: method in {GET,HEAD,POST,PUT,PATCH,DELETE,OPTIONS} x 15 request-target classes (pct-encoded slash/pipe/space, semicolon, empty query, dot-segments, double slash, trailing slash, ...) x request header options (multi-valued, odd casing, Cookie, Authorization, Connection-nominated, Proxy-*, TE, end-to-end names that merely begin like hop-by-hop ones: Proxy-Trace-Id, Upgrade-Insecure-Requests, Connection-Id, ...) x request bodies (none/sized/chunked/70k-1MiB) " +
 			"x origin script: status from 25 codes incl. 3xx with Location, multi-valued Set-Cookie/Link/Vary/Warning, Connection-nominated and hop-by-hop headers, validators, cache directives, bodies (none/sized/chunked/200k); 60% of storable GETs are requested a second time so that the answer from the store is checked too; plain and tunnel transport, both backends; origins behind another intermediary (their Via / Cache-Status / X-Cache values must stay in front of the values this proxy appends); a stale entry whose revalidation is answered 503 / 404 / 200 no-store (any further request of that exchange must be a faithful copy of the unconditional client request, and the client must get the real answer, never a 304). " +
 			"Every copy of the request the origin logs and the response the client parses are compared field by field. Non-trivial/distinct = distinct (transport, method, target class, status, request/response header-name sets, body shapes, round).",
 		Assumptions: []string{"headers the proxy's HTTP client adds when absent (User-Agent, Accept-Encoding) and framing (Content-Length/Transfer-Encoding) are tolerated on the request side",
